@@ -25,6 +25,9 @@ def if_then_else(cond, truev, falsev):
     if callable(falsev): falsev = guarded(~cond)(falsev)()        
 
     if isinstance(truev, list):
+        if len(truev) != len(falsev):
+            # zip() would silently drop the extra elements: a list cannot grow or shrink under a secret condition
+            raise RuntimeError("if_then_else: lists of different length (" + str(len(truev)) + " and " + str(len(falsev)) + ")")
         return [if_then_else(cond, truevi, falsevi) for (truevi,falsevi) in zip(truev,falsev)]
     
     if isinstance(truev, LinCombFxp):
